@@ -168,6 +168,14 @@ public:
 		return ! empty();
 	}
 
+#ifdef EVENTPP_VERIF
+	// Verification hook (off unless EVENTPP_VERIF is defined): place the generation counter,
+	// so that its wrap-around can be reached without 2^32 additions.
+	void verifSetCurrentCounter(const unsigned int value) {
+		currentCounter.store(value);
+	}
+#endif
+
 	Handle append(const Callback & callback)
 	{
 		NodePtr node(doAllocateNode(callback));
